@@ -895,7 +895,21 @@ def run_cert_handbuilt(ctx):
     attempt('malformed_option_data', 'any',
             critical=opt('force-command', sstr(b'/bin/true') + b'junk'))
     attempt('non_utf8_key_id', 'any', key_id=b'\xff\xfe')
-    attempt('non_utf8_principal', 'any', principals=[b'\xff\xfe'])
+    # a certificate that lists principals - whatever their bytes - is never
+    # good for a name it does not list (an undecodable entry must not turn
+    # the list into "no principals", which means "any")
+    for plist in ([b'\xff\xfe'], [b'jos\xe9', b'\x80'],
+                  [b'\xff\xfe', b'alice'], [b'al\xffice']):
+        c, _, _ = attempt('non_utf8_principal', 'any', principals=plist)
+        if c is not None:
+            ctx.hit('cert_grid')
+            for who in ('root', 'bob'):
+                if try_validate(ctx, c, CERT_ANY, who, now,
+                                f'{label0} [principals {plist}]'):
+                    ctx.bad('unlisted_principal_accepted',
+                            f'{label0}: certificate with principals '
+                            f'{plist} validates for {who!r} (asyncssh '
+                            f'reads the list as {list(c.principals)})')
     attempt('reserved_non_empty', 'any', reserved=b'abc')
     attempt('window_inverted', 'reject', va=now + 10, vb=now - 10)
     attempt('window_empty', 'reject', va=now, vb=now)
